@@ -307,8 +307,268 @@ def p_msgs_rt(nonce, hdrs, t, stop, prev, hashes, fitems):
     return None
 
 
+# ---------------------------------------------------------------- histories: one message / header object, many calls
+# Objects live in slots; every query is compared with the byte layout computed (struct + hashlib) from a shadow copy
+# of the CURRENT field values, so a serialization / hash remembered from before an edit, or a module-level cache keyed
+# by part of the arguments, shows up as a failing step.
+
+import hashlib  # noqa: E402
+
+REF_MAGIC = [bytes.fromhex(x) for x in ("f9beb4d9", "0b110907", "0a03cf40", "fabfb5da")]
+
+
+def _h256(b):
+    return hashlib.sha256(hashlib.sha256(b).digest()).digest()
+
+
+def _tryE(f, *a, **kw):
+    try:
+        return f(*a, **kw)
+    except Exception:
+        return ERR
+
+
+def _lay_env(f):
+    cmd, payload, magic = f
+    return magic + cmd.ljust(12, b"\x00") + struct.pack("<I", len(payload)) + _h256(payload)[:4] + payload
+
+
+def _lay_block(f):
+    v, prev, root, ts, bits, nonce = f
+    return struct.pack("<I", v) + prev[::-1] + root[::-1] + struct.pack("<I", ts) + bits + nonce
+
+
+def _lay_version(f):
+    v, sv, ts, rs, rip, rp, ss, sip, sp, nonce, ua, lb, relay = f
+    return struct.pack("<IQQQ", v, sv, ts, rs) + b"\x00" * 10 + b"\xff\xff" + rip + struct.pack("<H", rp) + \
+        struct.pack("<Q", ss) + b"\x00" * 10 + b"\xff\xff" + sip + struct.pack("<H", sp) + nonce + \
+        _ref_varint(len(ua)) + ua + struct.pack("<I", lb) + (b"\x01" if relay else b"\x00")
+
+
+def _ref_varint(n):
+    if n < 0 or n >= 2 ** 64:
+        raise ValueError
+    if n < 0xfd:
+        return bytes([n])
+    if n < 0x10000:
+        return b"\xfd" + struct.pack("<H", n)
+    if n < 2 ** 32:
+        return b"\xfe" + struct.pack("<I", n)
+    return b"\xff" + struct.pack("<Q", n)
+
+
+def _ref_read_varint(s):
+    """(value, rest) with the silent short reads of BytesIO; None when there is no first byte"""
+    if not s:
+        return None
+    w = {0xfd: 2, 0xfe: 4, 0xff: 8}.get(s[0])
+    if w is None:
+        return s[0], s[1:]
+    return int.from_bytes(s[1:1 + w], "little"), s[1 + w:]
+
+
+KINDS = [
+    # name, constructor, attribute names, layout
+    ("envelope", lambda f: network.NetworkEnvelope(f[0], f[1], network=NETS[REF_MAGIC.index(f[2])]),
+     ["command", "payload", "magic"], _lay_env),
+    ("block-header", lambda f: block.Block(*f), ["version", "prev_block", "merkle_root", "timestamp", "bits", "nonce"],
+     _lay_block),
+    ("version", lambda f: network.VersionMessage(*f[:12], relay=bool(f[12])),
+     ["version", "services", "timestamp", "receiver_services", "receiver_ip", "receiver_port", "sender_services",
+      "sender_ip", "sender_port", "nonce", "user_agent", "latest_block", "relay"], _lay_version),
+    ("getheaders", lambda f: network.GetHeadersMessage(*f), ["version", "num_hashes", "start_block", "end_block"],
+     lambda f: struct.pack("<I", f[0]) + _ref_varint(f[1]) + f[2][::-1] + f[3][::-1]),
+    ("ping", lambda f: network.PingMessage(*f), ["nonce"], lambda f: f[0]),
+    ("pong", lambda f: network.PongMessage(*f), ["nonce"], lambda f: f[0]),
+    ("getcfilters", lambda f: compactfilter.GetCFiltersMessage(*f), ["filter_type", "start_height", "stop_hash"],
+     lambda f: bytes([f[0]]) + struct.pack("<I", f[1]) + f[2][::-1]),
+    ("getcfheaders", lambda f: compactfilter.GetCFHeadersMessage(*f), ["filter_type", "start_height", "stop_hash"],
+     lambda f: bytes([f[0]]) + struct.pack("<I", f[1]) + f[2][::-1]),
+    ("getcfcheckpt", lambda f: compactfilter.GetCFCheckPointMessage(*f), ["filter_type", "stop_hash"],
+     lambda f: bytes([f[0]]) + f[1][::-1]),
+    ("generic", lambda f: network.GenericMessage(*f), ["command", "payload"], lambda f: f[1]),
+]
+K_ENV, K_BLOCK = 0, 1
+
+
+def _ref_target(bits):
+    return int.from_bytes(bits[:-1], "little") * 256 ** (bits[-1] - 3)
+
+
+def _obj_step(op, st):
+    """returns (got, want) for queries, (None, None) for constructions and edits"""
+    act, slot = op[0], op[1]
+    if act == b"new":
+        kind, f = op[2], list(op[3])
+        if kind == K_ENV:
+            f[2] = REF_MAGIC[f[2]]
+        st[slot] = [kind, KINDS[kind][1](f), f]
+        return None, None
+    if act == b"newdata":
+        st[slot] = [-1, network.GetDataMessage(), []]
+        return None, None
+    if act == b"newheaders":                 # a headers message parsed from the wire
+        raws = list(op[2])
+        raw = _ref_varint(len(raws)) + b"".join(h + b"\x00" for h in raws)
+        m = network.HeadersMessage.parse(BytesIO(raw))
+        st[slot] = [-2, m, [[struct.unpack("<I", h[:4])[0], h[4:36][::-1], h[36:68][::-1],
+                             struct.unpack("<I", h[68:72])[0], h[72:76], h[76:80]] for h in raws]]
+        return None, None
+    kind, obj, f = st[slot]
+    if act == b"set":
+        i, v = op[2], op[3]
+        if kind == K_ENV and i == 2:
+            v = REF_MAGIC[v]
+        setattr(obj, KINDS[kind][2][i], v)
+        f[i] = v
+        return None, None
+    if act == b"ser":
+        if kind == -1:
+            return _tryE(obj.serialize), _tryE(lambda: _ref_varint(len(f)) + b"".join(
+                struct.pack("<I", t) + i[::-1] for t, i in f))
+        return _tryE(obj.serialize), _tryE(KINDS[kind][3], f)
+    if act == b"add":
+        obj.add_data(op[2], op[3])
+        f.append((op[2], op[3]))
+        return None, None
+    if act == b"pop":
+        if f:
+            obj.data.pop(op[2] % len(f))
+            f.pop(op[2] % len(f))
+        return None, None
+    if act == b"hash":                        # block header: hash(), id()
+        lay = _tryE(_lay_block, f)
+        want = ERR if lay is ERR else [_h256(lay)[::-1], _h256(lay)[::-1].hex()]
+        return _tryE(lambda: [obj.hash(), obj.id()]), want
+    if act == b"pow":                         # block header: proof of work and version-bit queries
+        lay = _tryE(_lay_block, f)
+        def num(x):                           # targets of exponents below 3 are floats
+            return x if isinstance(x, int) else repr(x)
+        want = ERR if lay is ERR else _tryE(lambda: [
+            int.from_bytes(_h256(lay), "little") < _ref_target(f[4]), num(_ref_target(f[4])),
+            f[0] >> 29 == 1, f[0] >> 4 & 1 == 1, f[0] >> 1 & 1 == 1])
+        return _tryE(lambda: [obj.check_pow(), num(obj.target()), obj.bip9(), obj.bip91(), obj.bip141()]), want
+    if act == b"rt":                          # serialize, parse back, compare with the current fields
+        if kind == K_ENV:
+            cmd, payload, magic = f
+            if len(cmd) > 12 or cmd.strip(b"\x00") != cmd or len(payload) >= 2 ** 32:
+                return None, None
+            net = (REF_MAGIC.index(magic) + op[2]) % 4          # 0: the envelope's own network, else another one
+            want = [cmd, payload, magic, payload] if REF_MAGIC[net] == magic else ERR
+
+            def go():
+                e = network.NetworkEnvelope.parse(BytesIO(obj.serialize() + b"tail"), network=NETS[net])
+                return [e.command, e.payload, e.magic, obj.stream().read()]
+            return _tryE(go), want
+        if kind == K_BLOCK:
+            def go():
+                h = block.Block.parse_header(BytesIO(obj.serialize()))
+                return _hdr(h)
+            return _tryE(go), (ERR if _tryE(_lay_block, f) is ERR else list(f))
+        return None, None
+    if act == b"hset":                        # edit one field of one header inside a headers message
+        i, j, v = op[2] % len(f), op[3], op[4]
+        setattr(obj.headers[i], KINDS[K_BLOCK][2][j], v)
+        f[i][j] = v
+        return None, None
+    if act == b"chain":                       # make header i+1 point to the current hash of header i
+        i = op[2] % max(1, len(f) - 1)
+        if len(f) >= 2 and _tryE(_lay_block, f[i]) is not ERR:
+            hh = _h256(_lay_block(f[i]))[::-1]
+            obj.headers[i + 1].prev_block = hh
+            f[i + 1][1] = hh
+        return None, None
+    if act == b"valid":
+        def ref():
+            last = None
+            for h in f:
+                lay = _lay_block(h)
+                if not int.from_bytes(_h256(lay), "little") < _ref_target(h[4]):
+                    return False
+                if last and h[1] != last:
+                    return False
+                last = _h256(lay)[::-1]
+            return True
+        return _tryE(lambda: [obj.is_valid(), [x.serialize() for x in obj.headers]]), \
+            _tryE(lambda: [ref(), [_lay_block(h) for h in f]])
+    raise ValueError(act)
+
+
+def _codec_step(op):
+    k, a = op[0], op[1:]
+    if k == b"le":
+        return _tryE(helper.int_to_little_endian, a[0], a[1]), _tryE(lambda: a[0].to_bytes(a[1], "little"))
+    if k == b"be":
+        return _tryE(helper.int_to_big_endian, a[0], a[1]), _tryE(lambda: a[0].to_bytes(a[1], "big"))
+    if k == b"fle":
+        return _tryE(helper.little_endian_to_int, a[0]), sum(b << (8 * i) for i, b in enumerate(a[0]))
+    if k == b"fbe":
+        return _tryE(helper.big_endian_to_int, a[0]), sum(b << (8 * i) for i, b in enumerate(a[0][::-1]))
+    if k == b"vi":
+        return _tryE(helper.encode_varint, a[0]), _tryE(_ref_varint, a[0])
+    if k == b"rvi":
+        r = _ref_read_varint(a[0])
+        return _tryE(i_read_varint, a[0]), (ERR if r is None else list(r))
+    if k == b"vs":
+        return _tryE(helper.encode_varstr, a[0]), _ref_varint(len(a[0])) + a[0]
+    if k == b"rvs":
+        r = _ref_read_varint(a[0])
+        want = ERR if r is None or r[0] >= 2 ** 63 else [r[1][:r[0]], r[1][r[0]:]]
+        return _tryE(i_read_varstr, a[0]), want
+    if k == b"h256":
+        return _tryE(helper.hash256, a[0]), _h256(a[0])
+    if k == b"envp":                          # parse an envelope built here from (magic, command, length, checksum)
+        net, mnet, cmd, payload, declared, badsum, tail = a
+        chk = _h256(payload)[:4]
+        if badsum:
+            chk = bytes([chk[0] ^ badsum]) + chk[1:]
+        raw = REF_MAGIC[mnet] + cmd.ljust(12, b"\x00") + struct.pack("<I", declared) + chk + payload
+        ok = net == mnet and declared == len(payload) and not badsum
+        if declared < len(payload):           # the declared prefix is what gets read and checked
+            ok = net == mnet and _h256(payload[:declared])[:4] == chk
+        want = [cmd.strip(b"\x00"), payload[:declared], (payload[declared:] + tail)] if ok else ERR
+        return _tryE(i_env_parse, net, raw + tail), want
+    if k == b"hdr":
+        raw = a[0]
+        want = [[int.from_bytes(raw[:4], "little"), raw[4:36][::-1], raw[36:68][::-1],
+                                                      int.from_bytes(raw[68:72], "little"), raw[72:76], raw[76:80]], raw[80:]]
+        return _tryE(i_parse_header, raw), want
+    raise ValueError(k)
+
+
+def _run(ops, step):
+    from vp.sexp import canon
+    for i, op in enumerate(ops):
+        got, want = step(op)
+        if got is None and want is None:
+            continue
+        if got is ERR and want is ERR:
+            continue
+        if got is ERR or want is ERR or canon(got) != canon(want):
+            def sh(v):
+                return "an exception" if v is ERR else repr(v)[:140]
+            head = [x if not isinstance(x, (bytes, list)) or len(x) < 24 else "..." for x in op]
+            return (f"step {i} {head!r}: got {sh(got)}, the layout of the current fields/arguments is {sh(want)} — after "
+                    f"{i} earlier call(s)/edit(s) in this session")
+    return None
+
+
+def p_object_session(ops):
+    """envelope / header / message objects kept alive: serialize(), hash(), id(), check_pow(), round trips and
+    HeadersMessage.is_valid() asked repeatedly, interleaved with edits of every public field"""
+    st = {}
+    return _run(ops, lambda op: _obj_step(op, st))
+
+
+def p_codec_session(ops):
+    """the module-level codecs called in arbitrary order on related arguments (same number / other width, same bytes /
+    other byte order, same envelope / other network)"""
+    return _run(ops, _codec_step)
+
+
 PROPS = {"varint_rt": p_varint_rt, "varstr_rt": p_varstr_rt, "int_rt": p_int_rt, "env_rt": p_env_rt,
-         "env_reject": p_env_reject, "env_short": p_env_short, "header_rt": p_header_rt, "layouts": p_layouts, "msgs_rt": p_msgs_rt}
+         "env_reject": p_env_reject, "env_short": p_env_short, "header_rt": p_header_rt, "layouts": p_layouts, "msgs_rt": p_msgs_rt,
+         "object_session": p_object_session, "codec_session": p_codec_session}
 
 # ---------------------------------------------------------------- generators
 
@@ -330,6 +590,155 @@ def rcmd(r):
 
 def rheader(r, ctx):
     return ctx.rbytes(80)
+
+
+def _rfield(ctx, kind, i):
+    """a value for attribute i of an object of this kind: mostly in range, sometimes a boundary / out of range"""
+    r = ctx.rng
+    rare = r.random() < 0.04
+    u32 = lambda: r.choice([2 ** 32, -1]) if rare else r.choice([0, 1, 2 ** 32 - 1] + [r.getrandbits(32)] * 5)  # noqa: E731
+    u64 = lambda: 2 ** 64 if rare else r.choice([0, 2 ** 64 - 1] + [r.getrandbits(64)] * 4)  # noqa: E731
+    u16 = lambda: 65536 if rare else r.choice([0, 8333, 65535, r.getrandbits(16)])  # noqa: E731
+    h32 = lambda: ctx.rbytes(32)  # noqa: E731
+    if kind == K_ENV:
+        return [lambda: rcmd(r) if r.random() < 0.8 else r.choice([b"", b"getcfheaders", b"version"]),
+                lambda: ctx.rbytes(r.choice([0, 1, 31, 32, 33, 100, r.randrange(0, 300)])),
+                lambda: r.randrange(4)][i]()
+    if kind == K_BLOCK:
+        bits = lambda: ctx.rbytes(3) + bytes([r.choice([3, 4, 0x1d, 0x20, 0x21, 0x22, r.randrange(3, 60)])])  # noqa: E731
+        return [u32, h32, h32, u32, bits, lambda: ctx.rbytes(4)][i]()
+    name = KINDS[kind][0]
+    if name == "version":
+        ip = lambda: ctx.rbytes(4)  # noqa: E731
+        return [u32, u64, u64, u64, ip, u16, u64, ip, u16, lambda: ctx.rbytes(8),
+                lambda: ctx.rbytes(r.choice([0, 1, 27, 252, 253, 300])), u32, lambda: r.randrange(2)][i]()
+    if name == "getheaders":
+        return [u32, lambda: r.choice([0, 1, 252, 253, 65535, 65536, 2 ** 32, 2 ** 64 - 1, 2 ** 64 if rare else 3]), h32, h32][i]()
+    if name in ("ping", "pong"):
+        return ctx.rbytes(8)
+    t8 = lambda: r.choice([256, -1]) if rare else r.choice([0, 1, 255, r.randrange(256)])  # noqa: E731
+    if name in ("getcfilters", "getcfheaders"):
+        return [t8, u32, h32][i]()
+    if name == "getcfcheckpt":
+        return [t8, h32][i]()
+    return [lambda: rcmd(r), lambda: ctx.rbytes(r.randrange(0, 60))][i]()      # generic
+
+
+def _rheader80(ctx, prev=None):
+    r = ctx.rng
+    raw = bytearray(ctx.rbytes(80))
+    raw[75] = r.choice([0x21, 0x22, 0x23, 0x30, 0x1f, 0x20, 0x20])     # exponent near 2^256: proof of work both ways
+    if prev is not None:
+        raw[4:36] = _h256(bytes(prev))
+    return bytes(raw)
+
+
+def object_session(ctx):
+    r = ctx.rng
+    ops, live = [], []
+    kinds = r.sample(range(len(KINDS)), 3) + [K_ENV, K_BLOCK]
+    for slot, kind in enumerate(kinds):
+        ops.append([b"new", slot, kind, [_rfield(ctx, kind, i) for i in range(len(KINDS[kind][2]))]])
+        live.append((slot, kind))
+    nd, nh = len(kinds), len(kinds) + 1
+    ops.append([b"newdata", nd])
+    hdrs = []
+    for _ in range(r.choice([1, 2, 3, 4])):
+        hdrs.append(_rheader80(ctx, hdrs[-1] if hdrs and r.random() < 0.85 else None))
+    ops.append([b"newheaders", nh, hdrs])
+    for _ in range(r.randrange(30, 60)):
+        x = r.random()
+        if x < 0.12:
+            y = r.random()
+            if y < 0.45:
+                ops.append([b"add", nd, r.choice([1, 2, 3, 4, (1 << 30) + 1, r.getrandbits(32), 2 ** 32]), ctx.rbytes(32)])
+            elif y < 0.55:
+                ops.append([b"pop", nd, r.randrange(8)])
+            ops.append([b"ser", nd])
+            continue
+        if x < 0.3:
+            y = r.random()
+            if y < 0.4:
+                ops.append([b"valid", nh])
+            elif y < 0.75:
+                j = r.randrange(6)
+                ops.append([b"hset", nh, r.randrange(4), j, _rfield(ctx, K_BLOCK, j)])
+                if r.random() < 0.3 and j not in (0, 3):
+                    ops[-1][4] = _rfield(ctx, K_BLOCK, j)
+            else:
+                ops.append([b"chain", nh, r.randrange(4)])
+            if r.random() < 0.6:
+                ops.append([b"valid", nh])
+            continue
+        slot, kind = r.choice(live)
+        if x < 0.6:
+            i = r.randrange(len(KINDS[kind][2]))
+            ops.append([b"set", slot, i, _rfield(ctx, kind, i)])
+        q = [b"ser"]
+        if kind == K_BLOCK:
+            q += [b"hash", b"hash", b"pow", b"rt"]
+        if kind == K_ENV:
+            q += [b"rt", b"rt"]
+        for _ in range(r.choice([1, 1, 2, 3])):
+            a = r.choice(q)
+            ops.append([a, slot] + ([r.choice([0, 0, 0, 1, 2, 3])] if a == b"rt" else []))
+    for slot, kind in live:
+        ops.append([b"ser", slot])
+        if kind == K_BLOCK:
+            ops.append([b"hash", slot])
+    ops += [[b"ser", nd], [b"valid", nh]]
+    return ops
+
+
+def codec_session(ctx):
+    r = ctx.rng
+    ops = []
+    ns = [r.choice(BOUNDS), rint(r), rint(r, 32)]
+    ns += [ns[1] + 1, ns[1] ^ 0x100, ns[2] << 8]
+    for n in ns:
+        for l in r.sample([0, 1, 2, 3, 4, 8, 9, 32], 4):
+            ops.append([r.choice([b"le", b"be"]), n, l])
+        ops.append([b"vi", n])
+        if 0 <= n < 2 ** 64:
+            e = _ref_varint(n) + ctx.rbytes(r.randrange(0, 3))
+            ops.append([b"rvi", e])
+            ops.append([b"rvi", e[:-1]])
+            ops.append([b"rvs", e + ctx.rbytes(r.randrange(0, 5))])
+    bs = [ctx.rbytes(r.choice([0, 1, 2, 4, 8, 32, r.randrange(0, 40)])) for _ in range(3)]
+    bs += [bs[0][::-1], bs[1] + b"\x00", b"\x00" + bs[1]]
+    for b in bs:
+        ops += [[b"fle", b], [b"fbe", b], [b"vs", b], [b"h256", b], [b"rvs", _ref_varint(len(b)) + b + b"xy"],
+                [b"rvs", _ref_varint(len(b) + 1) + b]]
+    cmd, payload = rcmd(r), ctx.rbytes(r.choice([0, 1, 32, r.randrange(0, 120)]))
+    net = r.randrange(4)
+    tail = ctx.rbytes(r.randrange(0, 4))
+    for p2 in (payload, payload + b"\x00", payload[:-1], ctx.rbytes(len(payload))):
+        for c2 in (cmd, cmd[:-1], r.choice([b"getcfheaders", b"getcfcheckpt", b"ping"])):
+            ops.append([b"envp", net, net, c2, p2, len(p2), 0, tail])
+        ops.append([b"envp", (net + 1) % 4, net, cmd, p2, len(p2), 0, tail])
+        ops.append([b"envp", net, (net + r.randrange(1, 4)) % 4, cmd, p2, len(p2), 0, tail])
+        ops.append([b"envp", net, net, cmd, p2, len(p2), r.randrange(1, 256), tail])
+        ops.append([b"envp", net, net, cmd, p2, len(p2) + r.choice([1, 2, 256]), 0, tail])
+        if p2:
+            ops.append([b"envp", net, net, cmd, p2, len(p2) - 1, 0, tail])
+    raw = ctx.rbytes(80)
+    for h in (raw, raw[:76] + ctx.rbytes(4), raw + b"zz", raw[: r.randrange(0, 80)], ctx.rbytes(4) + raw[4:]):
+        ops.append([b"hdr", h])
+    r.shuffle(ops)
+    for op in list(ops):
+        if r.random() < 0.25:
+            ops.insert(r.randrange(len(ops) + 1), op)
+    return ops
+
+
+def histories(ctx):
+    for _ in range(ctx.n(40, 600)):
+        ctx.label("history/message-and-header-objects")
+        yield ("prop", "object_session", [object_session(ctx)])
+    for _ in range(ctx.n(25, 400)):
+        ctx.label("history/module-level-codecs")
+        yield ("prop", "codec_session", [codec_session(ctx)])
+
 
 
 def generate(ctx):
@@ -504,3 +913,5 @@ def generate(ctx):
         bad[r.randrange(33, len(bad))] ^= 1 << r.randrange(8)
         yield ("corr", "cfilter_parse", [bytes(bad)])
         yield ("prop", "msgs_rt", [ctx.rbytes(8), hdrs, t, stop, prev, hashes, sorted(set(fitems))])
+    # --- histories: objects queried repeatedly and edited in between; module-level codecs in arbitrary order
+    yield from histories(ctx)
